@@ -624,10 +624,46 @@ def default_calendar_rule(ctx, rule: str) -> None:
               witness={"cases": wrong[:4]})
 
 
+def self_pattern_eval(ctx, rule: str) -> None:
+    """The scanner evaluated on small config texts: each of the three headers with and without blanks around it opens the
+    section, a foreign section's current_version line is skipped, the section ends at the next header, and the result is
+    the current_version line with the version replaced by the pattern."""
+    from sa.model import CannotFold, EvalError
+    prog = ctx.prog
+    dp = prog.function("config._parse_current_version_default_pattern")
+    raw = {"current_version": "1.2.3", "version_pattern": "MAJOR.MINOR.PATCH"}
+    cv, want = 'current_version = "1.2.3"', 'current_version = "MAJOR.MINOR.PATCH"'
+    cases: T.List[T.Tuple[str, T.List[str], T.Optional[str]]] = []
+    for h in ("[pycalver]", "[bumpver]", "[tool.bumpver]"):
+        for pre, post in (("", ""), ("", "  "), ("  ", ""), ("\t", " ")):
+            cases.append((f"header {pre + h + post!r}", [pre + h + post, 'version_pattern = "MAJOR.MINOR.PATCH"', cv, "commit = true"], want))
+        cases.append((f"foreign section before {h}", ["[metadata]", 'current_version = "0.0.1"', "", h, cv], want))
+        cases.append((f"{h} without the key, a later section with it", [h, "commit = true", "[other]", cv], None))
+    wrong: T.List[str] = []
+    n = 0
+    try:
+        for name, lines, expect in cases:
+            env = {dp.params[0]: dict(raw), dp.params[1]: "\n".join(lines) + "\n", "__strict__": True}
+            try:
+                got, _ys = prog.run_body(dp, env)
+            except EvalError as ex:
+                got = None if getattr(ex, "raised", None) == "ValueError" else f"raises: {ex}"
+            n += 1
+            if got != expect:
+                wrong.append(f"{name}: {got!r}, expected {expect!r}")
+    except (CannotFold, TypeError, AttributeError, KeyError, ValueError, IndexError) as ex:
+        ctx.observe(f"_parse_current_version_default_pattern not evaluated ({type(ex).__name__}: {str(ex)[:80]}); decided by the path-condition rules alone")
+        return
+    ctx.check(rule, not wrong, f"self-pattern parser: evaluated on {n} small config texts (headers with blanks around them, foreign sections, section end)",
+              "config._parse_current_version_default_pattern: the config file's own current_version line is not found / taken from the wrong section",
+              "; ".join(wrong[:3]), loc=dp.loc(), witness={"cases": wrong[:4]})
+
+
 def section_scan_rule(ctx, rule: str) -> None:
     """The self-pattern parser scans the config text: the current_version line is taken only inside a bumpver section,
     the section starts at an exact header and ends at the next `[...]` header line."""
     prog, cfgs = ctx.prog, ctx.cfgs
+    self_pattern_eval(ctx, rule)
     prc = prog.function("config._parse_raw_config")
     dp = prog.function("config._parse_current_version_default_pattern")
     ctx.visit(dp.fq)
